@@ -983,7 +983,7 @@ fn run_conc(args: &[String], out: &mut dyn Write) {
         *shapes.entry(format!("{}{}", if use_multi { "multi" } else { "single" }, if wide { "-wide" } else { "" })).or_default() += 1;
         if !bad.is_empty() {
             n_fail += 1;
-            if failures.len() < 5 {
+            if failures.len() < 200 {
                 failures.push(json!({"what": bad[0], "all": bad.iter().take(6).collect::<Vec<_>>(), "schedule": desc}));
             }
         }
